@@ -3,13 +3,14 @@ from . import abnf, core, recv
 
 GLOBAL_TRUSTED = [
     "pyvc (AST -> verification conditions) and its encoding of Python semantics (DESIGN.md 2.2, 2.14)",
-    "z3 4.x/5.1.0 (E-matching, MBQI off; ground-instantiation pass for counter-models)",
+    "z3 5.1.0 (E-matching, MBQI off; ground-instantiation pass for counter-models)",
     "integers are mathematical (Python ints are unbounded): no machine-arithmetic approximation",
     "sequence axioms and library axioms A-CHR, A-PACK, A-INTXOR, A-ARRAY, A-UTF8 (DESIGN.md 2.3)",
 ]
 
 LEMMAS = {}
 MODULES = [abnf, recv, core]
+COST = {}
 
 
 def install_all(e):
@@ -18,29 +19,72 @@ def install_all(e):
         LEMMAS.update(getattr(m, "LEMMAS", {}))
 
 
+A = "websocket._abnf:"
+U = "websocket._utils:"
+K = "websocket._core:"
+SK = "websocket._socket:"
+COST.update({K + "WebSocket.recv_data_frame": 100, K + "WebSocket.recv": 40, A + "frame_buffer.recv_frame": 10, A + "ABNF.format": 5})
+
+T_TRANSPORT = "assumed contract of the transport (socket.recv / socket.send): which prefix is delivered/accepted and which error is raised are unconstrained (DESIGN.md section 3)"
+T_KEYSRC = "assumed contract of the key source (os.urandom / user callable): returns 4 bytes or a 4-character ASCII str; randomness quality is not a contract"
+T_LOG = "logging calls are effect-free; isEnabledForTrace() is an unconstrained boolean (both values verified)"
+
+SEND_FUNCS = [A + "_mask", A + "ABNF.mask", A + "ABNF._get_masked", A + "ABNF.format", A + "ABNF.create_frame",
+              SK + "send", K + "WebSocket._send", K + "WebSocket.send_frame", K + "WebSocket.send", K + "WebSocket.ping",
+              K + "WebSocket.pong", K + "WebSocket.send_close"]
+RECV_FUNCS = [A + "frame_buffer.recv_strict", A + "frame_buffer.recv_frame", A + "ABNF.validate", A + "ABNF.mask", A + "_mask",
+              SK + "recv", K + "WebSocket._recv", K + "WebSocket.recv_data_frame", K + "WebSocket.recv",
+              U + "validate_utf8", U + "_validate_utf8"]
+
+
 def assumed_contracts_used(prop):
     return list(prop.get("assumed_contracts", []))
 
 
-A = "websocket._abnf:"
-U = "websocket._utils:"
-
 PROPS = {
+    "C01": dict(
+        functions=SEND_FUNCS, lemmas=["lemma:roundtrip"],
+        trusted_base=[T_TRANSPORT, T_KEYSRC, T_LOG, "rfc_encode written from RFC 6455 5.2 (contracts/spec.py)"],
+        assumptions=["A-INTXOR: xor of int.from_bytes values acts byte-wise (validated natively in the thorough tier)",
+                     "text that str.encode('utf-8') rejects (lone surrogates) raises UnicodeEncodeError before anything is written"],
+        not_decided=[]),
+    "C02": dict(
+        functions=RECV_FUNCS, lemmas=[],
+        trusted_base=[T_TRANSPORT, "rfc_decode (spec.Dec) written from RFC 6455 5.2"],
+        assumptions=["A-PACK (struct.unpack big-endian), A-INTXOR"], not_decided=[]),
+    "C03": dict(
+        functions=RECV_FUNCS + [SK + "recv_line"], lemmas=[],
+        trusted_base=[T_TRANSPORT],
+        assumptions=["segmentation and timeout positions are the unconstrained choices of the assumed transport contract; every "
+                     "post-condition is a function of (rx, fstart, object state) only"],
+        not_decided=["the EAGAIN/select branch of _socket.recv returning None is reported as connection-closed (as written)"]),
+    "C04": dict(
+        functions=[K + "WebSocket.recv_data_frame", K + "WebSocket.recv", A + "frame_buffer.recv_frame"], lemmas=[],
+        trusted_base=[T_TRANSPORT, "spec fold over accepted data frames (recv.fold_step)"],
+        assumptions=["continuous_frame.validate/add/is_fire/extract are verified inlined into recv_data_frame (no separate contract)"],
+        not_decided=[]),
     "C05": dict(
-        functions=[A + "ABNF.validate", U + "validate_utf8", U + "_validate_utf8"],
+        functions=[A + "ABNF.validate", A + "frame_buffer.recv_frame", K + "WebSocket.recv_data_frame", U + "validate_utf8", U + "_validate_utf8"],
         lemmas=[],
-        bounded=[],
         trusted_base=["close-code sets must_accept / must_reject as read from RFC 6455 7.4 (DESIGN.md section 3)"],
-        assumptions=[],
-        not_decided=[],
-    ),
+        assumptions=[], not_decided=[]),
     "C06": dict(
-        functions=[U + "_validate_utf8", U + "validate_utf8"],
+        functions=[U + "_validate_utf8", U + "validate_utf8", A + "ABNF.validate", K + "WebSocket.recv_data_frame", K + "WebSocket.recv"],
         lemmas=["lemma:utf8.trap_absorbing"],
-        bounded=[],
         trusted_base=["spec automaton generated from Unicode 15 Table 3-7 (contracts/spec.py TABLE_3_7)",
-                      "induction scheme behind the trap-absorption axiom (its step lemma L-TRAP is discharged)"],
-        assumptions=[],
-        not_decided=[],
-    ),
+                      "induction scheme behind the trap-absorption axiom (its step lemma L-TRAP is discharged)",
+                      "A-UTF8: bytes.decode('utf-8') raises exactly when the input is not well-formed per Table 3-7"],
+        assumptions=[], not_decided=[]),
+    "C07": dict(
+        functions=[K + "WebSocket.recv_data_frame", K + "WebSocket.pong", K + "WebSocket.send", K + "WebSocket.send_frame", A + "ABNF.format"],
+        lemmas=[], trusted_base=[T_TRANSPORT, T_KEYSRC], assumptions=[], not_decided=[]),
+    "C12": dict(
+        functions=[K + "WebSocket.send_frame", K + "WebSocket._send", SK + "send", K + "WebSocket.recv", A + "frame_buffer.recv_frame",
+                   K + "WebSocket.recv_data_frame"],
+        lemmas=[],
+        trusted_base=[T_TRANSPORT, "threading.Lock is a mutex with release/acquire ordering (assumed contract); all writers go through "
+                                   "WebSocket._send, whose contract requires the send lock"],
+        assumptions=["lock-invariant obligations instead of schedule exploration: on release of the send lock no partial frame is on the wire; "
+                     "recv() calls the message-level read only under the read lock; recv_frame holds the frame lock for the whole frame"],
+        not_decided=["exploration of thread interleavings; CPython memory model"]),
 }
